@@ -414,7 +414,17 @@ class ExprMixin:
 
     def ev_IfExp(self, n, env):
         if self.pure_mode:
-            c = self.truthy(self.ev(n.test, env))
+            c = z3.simplify(self.truthy(self.ev(n.test, env)))
+            if z3.is_true(c):
+                return self.ev(n.body, env)
+            if z3.is_false(c):
+                return self.ev(n.orelse, env)
+            if getattr(self, "deep_feasibility", False):
+                # a condition decided by the path condition (quantified well-formedness facts included) needs no ite
+                if not self.feasible_full(z3.Not(c)):
+                    return self.ev(n.body, env)
+                if not self.feasible_full(c):
+                    return self.ev(n.orelse, env)
             a, b = self.ev(n.body, env), self.ev(n.orelse, env)
             return self.ite(c, a, b)
         if self.test(n.test, env):
@@ -434,6 +444,12 @@ class ExprMixin:
             return VEnum(a.enum, z3.If(c, a.term, b.term))
         if isinstance(a, VTuple) and isinstance(b, VTuple) and len(a.items) == len(b.items):
             return VTuple([self.ite(c, x, y) for x, y in zip(a.items, b.items)])
+        if isinstance(a, VNone) and isinstance(b, VNone):
+            return a
+        if isinstance(a, VRef) and isinstance(b, VNone):
+            return VRef(a.sort, z3.If(c, a.term, null_of(a.sort)), nullable=True)
+        if isinstance(a, VNone) and isinstance(b, VRef):
+            return VRef(b.sort, z3.If(c, null_of(b.sort), b.term), nullable=True)
         raise OutOfSubset(f"ite merge of {a!r} and {b!r}")
 
     def ev_NamedExpr(self, n, env):
@@ -859,22 +875,79 @@ class ExprMixin:
             r.mutable = mutable
             self.assumptions_used.add("filtered comprehension over a symbolic sequence abstracted to an arbitrary shorter sequence (sound over-approximation)")
             return r
-        i = z3.Int(self.fresh_name("i!comp"))
-        e2 = Env(env)
-        self.pure_mode += 1
-        try:
-            pcn = len(self.pc)
-            item = self.seq_get_pure(seq, i)
-            self.bind_target(g.target, item, e2)
+        def body(e2):
             val = self.ev(n.elt, e2)
-            if len(self.pc) != pcn:
-                raise OutOfSubset("assumption inside symbolic comprehension")
-        finally:
-            self.pure_mode -= 1
+            elem = self.infer_elem(val)
+            return val, pack(val, elem)
+        i, (val, _), terms = self.for_arbitrary_index(seq, g.target, env, body, "i!comp")
         elem = self.infer_elem(val)
-        terms = pack(val, elem)
         arrs = [z3.Lambda([i], t) for t in terms]
         return VSeq(elem, arrs, seq.length, mutable)
+
+    def for_arbitrary_index(self, seq, target, env, body, base="i!q"):
+        """Evaluate `body(env with target bound to seq[i])` once, for an arbitrary index i of a symbolic sequence, without
+        forking.  body returns (anything, [z3 terms]).  Facts learnt during the evaluation (postconditions of called
+        functions) are turned into one assumption quantified over i; symbols created for the element become Skolem
+        functions of i; the evaluation must not have side effects.  Returns (i, body result, terms after Skolemisation)."""
+        i = z3.Int(self.fresh_name(base))
+        e2 = Env(env)
+        self.pure_mode += 1
+        names0 = dict(self.names)
+        heap0 = {k: list(v) for k, v in self.heap.items()}
+        hv0 = self.ghost.get("heap_version")
+        nev0 = len(self.events)
+        pcn = len(self.pc)
+        try:
+            self.pc.append(z3.And(i >= 0, i < seq.length))
+            self.bind_target(target, self.seq_get_pure(seq, i), e2)
+            res = body(e2)
+            terms = list(res[1])
+            delta = self.pc[pcn + 1:]
+        finally:
+            del self.pc[pcn:]
+            self.pure_mode -= 1
+        if delta:
+            hv1 = self.ghost.get("heap_version")
+            if len(self.events) != nev0 or (hv0 is None) != (hv1 is None) or (hv0 is not None and not hv0.eq(hv1)) or any(
+                    k in heap0 and (len(heap0[k]) != len(v) or not all(a.eq(b) for a, b in zip(heap0[k], v))) for k, v in self.heap.items()):
+                raise OutOfSubset("element expression of a symbolic comprehension has side effects")
+            created = set()
+            for nm, cnt in self.names.items():
+                for k in range(names0.get(nm, 0), cnt):
+                    created.add(f"{nm}#{k}" if k else nm)
+            subst = self._skolemise_over(created, [*delta, *terms], i)
+            if subst:
+                delta = [z3.substitute(d, *subst) for d in delta]
+                terms = [z3.substitute(t, *subst) for t in terms]
+            self.pc.append(z3.ForAll([i], z3.Implies(z3.And(i >= 0, i < seq.length), z3.And(delta))))
+            self.assumptions_used.add("postconditions of the functions called in the element expression of a comprehension over a symbolic sequence hold for every index (element evaluated once for an arbitrary index; per-element symbols Skolemised)")
+        return i, res, terms
+
+    def _skolemise_over(self, created: set, exprs, i):
+        """(constant, f(i)) pairs for every uninterpreted constant of `exprs` whose name was created during the element evaluation"""
+        found, seen, stack = {}, set(), list(exprs)
+        while stack:
+            t = stack.pop()
+            if t.get_id() in seen:
+                continue
+            seen.add(t.get_id())
+            if z3.is_quantifier(t):
+                stack.append(t.body())
+            elif z3.is_app(t):
+                if t.num_args() == 0 and t.decl().kind() == z3.Z3_OP_UNINTERPRETED:
+                    nm = t.decl().name()
+                    root = nm.split("!")[0]
+                    if nm in created or root in created or any(nm.startswith(c + "!") or nm.startswith(c + ".") for c in created):
+                        found[nm] = t
+                else:
+                    stack.extend(t.children())
+        out = []
+        for nm, c in found.items():
+            if c.eq(i):
+                continue
+            f = z3.Function(nm + "!sk", z3.IntSort(), c.sort())
+            out.append((c, f(i)))
+        return out
 
     def seq_get_pure(self, s: VSeq, idx) -> V:
         v = unpack(s.elem, [z3.Select(a, idx) for a in s.arrs])
